@@ -462,6 +462,13 @@ class Gen:
             return None
         n = self.r.pick(cands)
         dc = True if m.kind(n) == "Source" else self.r.chance(0.5)
+        mux = m.mux()
+        if mux is not None and self.r.chance(0.3):
+            # remove a link of a chain that leads into the mux, keeping what is below
+            chain = [a for i in m.parents[mux] for a in ([i] + m.ancestors(i)) if m.kind(a) != "Source"]
+            if chain:
+                n = self.r.pick(chain)
+                dc = False
         if m.del_ambiguous(n, dc):
             dc = True
         return {"op": "del_comp", "name": n, "del_childs": dc}
